@@ -275,6 +275,25 @@ def check_fill_in(ctx):
         raise AnalysisError('_triangulated: elimination loop not found')
     loop, entry, body_env, pc = loops[0]
     node = loop.target.id
+    # a sweep that only runs under a condition: skipping it must leave the graph triangulated BY THE GIVEN ORDER (the order is stored and
+    # used again, e.g. to factorise the model when records are generated), which chordality alone does not give
+    for cond, pol in pc:
+        names_ = {U(c.func).split('.')[-1] for c in ast.walk(cond) if isinstance(c, ast.Call)}
+        text = U(cond)
+        if 'is_chordal' in names_:
+            ctx.ob('elimination-fill-in', fi, loop, False,
+                   'the elimination sweep is skipped when the graph is chordal (`%s`): a chordal graph has SOME order without fill-in, not '
+                   'necessarily the given `%s` - the returned graph is then not the triangulation produced by the stored elimination order'
+                   % (U(cond), order), construct='condition of the elimination sweep')
+            continue
+        # every connected component complete (a vertex of a component c has degree len(c) - 1): no order adds an edge
+        m = re.fullmatch(r"any\(\((\w+)\.degree\((\w+)\) != len\((\w+)\) - 1 for \3 in (?:nx|networkx)\.connected_components\(\1\) for \2 in \3\)\)", text)
+        if m and pol:
+            ctx.ob('elimination-fill-in', fi, loop, True, 'the sweep is only skipped when every connected component is complete (no order adds '
+                   'an edge then): `%s`' % U(cond), construct='condition of the elimination sweep')
+            continue
+        raise AnalysisError('_triangulated: the elimination sweep only runs under `%s%s`; whether skipping it leaves the triangulation of the '
+                            'given order is not decided' % ('' if pol else 'not ', U(cond)[:100]))
     ctx.ob('elimination-fill-in', fi, loop, T(loop.iter) == order, 'nodes are eliminated in the given order `%s`' % order,
            construct='elimination order')
     adds = [(s_, c) for s_, c, pc_, lp in be.calls if lp and isinstance(c.func, ast.Attribute) and c.func.attr == 'add_edges_from' and c.args]
